@@ -31,8 +31,8 @@ STDLIB_REFS = [
 
 def gen_corpus(seed, tier):
     from sim import graphgen, proggen
-    njobs = 320 if tier == "quick" else 2600
-    nmax = 12 if tier == "quick" else 20
+    njobs = 960 if tier == "quick" else 4000
+    nmax = 14 if tier == "quick" else 22
     jobs = []
     for j in range(njobs):
         rng = Rng(seed, "hashsim/job%d" % j)
